@@ -57,4 +57,17 @@ PROPS = {
         "outside": "that 1000 nested calls fit the native stack and that a few hundred levels complete in the release CLI (CBMC has no stack model); lambda callees (Environment/HashMap)",
         "assumptions": ["std::time::Instant::now stubbed with a fixed instant (only stored in the call-statistics log)"],
     },
+    "C02": {
+        "engine": "kani", "module": "c02", "timeout": {"quick": 900, "thorough": 2400},
+        "functions": ["functions::BuiltInFunction::call (every one-argument built-in, symbolic choice)", "expressions::evaluate_ast (broadcast arm)", "heap::Heap::insert"],
+        "bounds": "argument list of 3 non-NaN numbers; one call / evaluation repeated twice on the same heap",
+        "outside": "hash-seed / process independence (RandomState is stubbed), print / time_now, let-abstraction of sub-expressions at program level (needs bindings: Environment/HashMap)",
+    },
+    "C13": {
+        "engine": "kani", "module": "c13", "timeout": {"quick": 900, "thorough": 2400},
+        "functions": ["expressions::evaluate_binary_op_ast (via / into / where arms)", "functions::BuiltInFunction::call (Map, Filter)", "functions::FunctionDef::call"],
+        "bounds": "lists of 2 numbers / booleans; built-in callees abs, floor, min (index-accepting), to_bool, len",
+        "outside": "lambda and named recursive callees (Environment/HashMap), reduce / every / some, sort_by / group_by, lists longer than 2",
+        "assumptions": ["std::time::Instant::now stubbed with a fixed instant (only stored in the call-statistics log)"],
+    },
 }
